@@ -42,7 +42,7 @@ TF = 'chainables.tree_fns'
 
 
 def run(ctx: Ctx):
-  for r in (r1, r2, r3, r4, r5):
+  for r in (r1, r2, r3, r4, r5, r6):
     ctx.guard(r)
 
 
@@ -416,10 +416,69 @@ def r5(ctx: Ctx):
   ctx.floor(rule, 3, n)
 
 
+def _per_axis_width(w: ast.AST, arr: str) -> bool:
+  """Is `w` a pad width that names axis 0 only: [(0, k)] + [(0, 0)] * (arr.ndim - 1)?"""
+  def pair_seq(e):
+    return isinstance(e, (ast.List, ast.Tuple)) and len(e.elts) == 1 and isinstance(
+        e.elts[0], (ast.Tuple, ast.List)) and len(e.elts[0].elts) == 2
+  if isinstance(w, ast.BinOp) and isinstance(w.op, ast.Add) and pair_seq(w.left):
+    r = w.right
+    if isinstance(r, ast.BinOp) and isinstance(r.op, ast.Mult):
+      rep, cnt = (r.left, r.right) if pair_seq(r.left) else (r.right, r.left)
+      if pair_seq(rep) and all(isinstance(z, ast.Constant) and z.value == 0 for z in rep.elts[0].elts):
+        c = unparse(cnt).replace(' ', '')
+        return c in (f'({arr}.ndim-1)', f'{arr}.ndim-1', f'(len({arr}.shape)-1)', f'len({arr}.shape)-1',
+                     f'(np.ndim({arr})-1)', f'np.ndim({arr})-1')
+  return False
+
+
+def r6(ctx: Ctx):
+  rule = 'R-C19-6'
+  ctx.rule(rule, '"padding only appends [rows] to the final batch": np.pad'
+           ' broadcasts a flat (before, after) width to EVERY axis, so the'
+           ' array branch of _pad must pass a per-axis width that pads axis 0'
+           ' only ([(0, k)] + [(0, 0)] * (ndim - 1)) — otherwise every row of a'
+           ' 2-D column grows as well')
+  fi = ctx.repo.func(IU, '_pad')
+  arr = fi.params()[0]
+  calls = [c for c in ast.walk(fi.node) if isinstance(c, ast.Call) and unparse(c.func) in ('np.pad', 'numpy.pad')]
+  if not calls:
+    raise AnalysisError(f'{rule}: np.pad not found in _pad')
+  n = 0
+  for c in calls:
+    n += 1
+    w = c.args[1] if len(c.args) > 1 else kwarg(c, 'pad_width')
+    if w is None:
+      raise AnalysisError(f'{rule}: pad width of {unparse(c)[:50]} not found')
+    if isinstance(w, ast.Name):
+      vals = [x.value for x in walk_no_nested(fi.node) if isinstance(x, ast.Assign)
+              and any(isinstance(t, ast.Name) and t.id == w.id for t in x.targets)]
+      if len(vals) == 1:
+        w = vals[0]
+    if _per_axis_width(w, arr):
+      ctx.ok(rule, fi, f'np.pad width `{unparse(w)[:50]}` pads axis 0 only', c)
+    elif isinstance(w, (ast.Tuple, ast.List)) and len(w.elts) == 2 and not any(
+        isinstance(e, (ast.Tuple, ast.List)) for e in w.elts) or isinstance(w, ast.Constant):
+      ctx.fail(rule, fi, '_pad: np.pad(data, [(0, k)] + [(0, 0)] * (data.ndim - 1))',
+               f'np.pad is called with the flat width `{unparse(w)[:40]}`, which numpy'
+               ' applies to every axis: padding a 2-D column to the batch size'
+               ' also appends pad values to every row (shape (n, d) becomes'
+               ' (batch, d + k))', node=c)
+    else:
+      raise AnalysisError(f'{rule}: unrecognised pad width `{unparse(w)[:60]}`')
+  ctx.floor(rule, 1, n)
+
+
 from mlmverif.selfcheck import B, OK  # noqa: E402
 
 _F = 'utils/iter_utils.py'
 VARIANTS = [
+    B('revert-pad-axis0-only', _F,
+      '    pad_width = [(0, batch_size - data.shape[0])] + [(0, 0)] * (data.ndim - 1)\n    return np.pad(data, pad_width, constant_values=pad)',
+      '    return np.pad(data, (0, batch_size - data.shape[0]), constant_values=pad)', 'R-C19-6'),
+    OK('pad-width-inline', _F,
+       '    pad_width = [(0, batch_size - data.shape[0])] + [(0, 0)] * (data.ndim - 1)\n    return np.pad(data, pad_width, constant_values=pad)',
+       '    return np.pad(data, [(0, batch_size - data.shape[0])] + [(0, 0)] * (data.ndim - 1), constant_values=pad)'),
     B('array-fast-path-overtakes-remainder', _F,
       "        raise ValueError(f'Mismatched columns: {len(batch)} != {num_columns=}')\n",
       "        raise ValueError(f'Mismatched columns: {len(batch)} != {num_columns=}')\n      if batch and all(hasattr(column, '__array__') and _batch_size(column) == batch_size for column in batch):\n        yield tuple(batch)\n        continue\n",
